@@ -292,6 +292,8 @@ static void run_config(Ctx &c, const Fmt &f, Flags fl, const std::string &doc, l
   int r = mpt_parse_config(NextCtx::next, &nx, pc, Recorder::save, &rec);
   c.logf("mpt_parse_config=%d line=%zu events=%zu element-parser calls=%zu refuse_at=%zu nested parses=%zu", r, (size_t)pc->src.line, rec.ev.size(), nx.entries, rec.refuse_at, rec.nested);
   check_getc(c, src, true);
+  // a read error of the character source is never reported as success
+  if (src.error_hit) { c.label("input:read-error-reached"); VP_CHECK(c, r < 0, "read-error-success", "the character source reported a read error at byte %ld, mpt_parse_config returned %d", error_at, r); }
   if (rec.nest) {
     c.label("config:nested-parse-in-handler");
     VP_CHECK(c, rec.nest_fault.empty(), "nested-parse", "handler with a nested parse: %s", rec.nest_fault.c_str());
@@ -351,6 +353,7 @@ static int parse_into(Ctx &c, node *root, const Fmt &f, Flags fl, const std::str
   int r = mpt_parse_node(root, pc, f.cstr());
   c.logf("%s: mpt_parse_node=%d line=%zu (root had %zu nodes)", what, r, (size_t)pc->src.line, before.addr.size());
   check_getc(c, src, false);
+  if (src.error_hit) { c.label("input:read-error-reached"); VP_CHECK(c, r < 0, "read-error-success", "%s: the character source reported a read error at byte %ld, mpt_parse_node returned %d", what, error_at, r); }
   if (r < 0) {
     // "a failed parse reports an error and leaves the target tree exactly as it was"
     Snapshot after;
